@@ -27,13 +27,15 @@
 (*             one object for ever)                                                    *)
 (*   NoDeadlock, NoSelfWait, LocksReleased, Termination (under fairness)              *)
 (* The switches are negative controls: with RecheckGen = FALSE (re-lock by number    *)
-(* after the window, a seeded change), SortLocks = FALSE, or PlusLocksKids = TRUE      *)
+(* after the window, a seeded change), RecheckName = FALSE (CREATE's retry does not  *)
+(* look the name up again, seeded), SortLocks = FALSE, or PlusLocksKids = TRUE          *)
 (* (the known finding) the corresponding property fails.                               *)
 EXTENDS Integers, Sequences, FiniteSets, TLC
 
 CONSTANTS NI, Names, Clients, RecheckGen, SortLocks, PlusLocksKids, Scenario, MaxTries,
           OneOp,       \* the clients that issue one request; the others issue one or two
-          LowestFree   \* TRUE: the allocator hands out the lowest free number (what the real one does after a restart); FALSE: any
+          LowestFree,  \* TRUE: the allocator hands out the lowest free number (what the real one does after a restart); FALSE: any
+          RecheckName  \* FALSE (negative control, a seeded change): the retry of CREATE after completing a half-freed inode does not look the name up again
 
 Inums == 1..NI
 Root == 1
@@ -260,13 +262,13 @@ D6(c) ==
   /\ UNCHANGED taken
 
 (* CREATE: getAlloc *)
-C1(c) == cs[c].pc \in {"c1", "c1n"} /\ Take(c, cs[c].op.h[1], IF cs[c].pc = "c1" THEN "c2" ELSE "c2n")
+C1(c) == cs[c].pc \in {"c1", "c1n", "c1x"} /\ Take(c, cs[c].op.h[1], IF cs[c].pc = "c1" THEN "c2" ELSE IF cs[c].pc = "c1x" THEN "c2x" ELSE "c2n")
 C2(c) ==
-  /\ cs[c].pc \in {"c2", "c2n"}
+  /\ cs[c].pc \in {"c2", "c2n", "c2x"}
   /\ LET o == cs[c].op  d == o.h[1]  free == {i \in Inums : fs.kind[i] = "free" /\ i \notin taken} IN
-     IF (cs[c].pc = "c2" /\ ~Live(fs, o.h)) \/ fs.kind[d] = "free" THEN Finish(c, "STALE", <<>>, fs, 0) /\ UNCHANGED taken   \* c2n: by number only
+     IF (cs[c].pc \in {"c2", "c2x"} /\ ~Live(fs, o.h)) \/ fs.kind[d] = "free" THEN Finish(c, "STALE", <<>>, fs, 0) /\ UNCHANGED taken   \* c2n: by number only
      ELSE IF fs.kind[d] # "dir" THEN Finish(c, "ERR", <<>>, fs, 0) /\ UNCHANGED taken
-     ELSE IF fs.ents[d][o.n] # 0 THEN Finish(c, "EXIST", <<>>, fs, 0) /\ UNCHANGED taken
+     ELSE IF fs.ents[d][o.n] # 0 /\ cs[c].pc # "c2x" THEN Finish(c, "EXIST", <<>>, fs, 0) /\ UNCHANGED taken
      ELSE IF free = {} THEN Finish(c, "NOSPC", <<>>, fs, 0) /\ UNCHANGED taken
      ELSE \E n \in (IF LowestFree THEN {CHOOSE m \in free : \A k \in free : m <= k} ELSE free) :
                           /\ taken' = taken \cup {n}
@@ -285,7 +287,7 @@ C4(c) ==
 C5(c) == cs[c].pc = "c5" /\ Take(c, cs[c].x, "c6")
 C6(c) ==
   /\ cs[c].pc = "c6"
-  /\ fs' = [fs EXCEPT !.shr[cs[c].x] = FALSE] /\ lock' = RelAll(c) /\ Goto(c, IF RecheckGen THEN "c1" ELSE "c1n") /\ UNCHANGED <<taken, shq, bad>>
+  /\ fs' = [fs EXCEPT !.shr[cs[c].x] = FALSE] /\ lock' = RelAll(c) /\ Goto(c, IF ~RecheckGen THEN "c1n" ELSE IF RecheckName THEN "c1" ELSE "c1x") /\ UNCHANGED <<taken, shq, bad>>
 
 (* RENAME *)
 R1(c) ==
